@@ -58,3 +58,40 @@ Example doc_conjunction : eval_query doc_program [] 3 = Ok [[(0, VStr apple)]].
 Proof. vm_compute. reflexivity. Qed.
 Example plain_holds : plain (p_rules (nth 2 doc_program {| p_name := 0; p_kind := KTable; p_rules := [] |})).
 Proof. intros r [E|[]]. subst. split; reflexivity. Qed.
+
+(* ---- the compiler's variable elimination (model Core/Elim.v, tied to
+   RuleStructure.ElliminateInternalVariables + UnificationsToConstraints by the elimination tie of props/c01.py):
+   when it succeeds, the final SELECT / WHERE has exactly the solutions of the extracted rule structure, row
+   choice by row choice, with the same head values - whatever the order in which unifications were visited. *)
+From LV Require Import Core.Elim Core.ElimProofs.
+
+Theorem C01_variable_elimination_sound :
+  forall app is_x E s s',
+  eliminate is_x E s = Some (inr s') ->
+  exists s1,
+    represents app E s s1 /\ internal_vars E s1 = [] /\ sel s' = sel s1 /\
+    (forall sg, solves app sg s' <-> where_holds app sg s1).
+Proof. exact eliminate_sound. Qed.
+
+Theorem C01_where_equalities_imply_unifications :
+  forall app sg s, where_holds app sg s -> solves app sg s.
+Proof. exact where_is_unification. Qed.
+
+Theorem C01_unifications_are_where_equalities_when_not_null :
+  forall app sg s, solves app sg s ->
+  (forall l r, In (l, r) (unifs s) -> peval app sg l <> VNull) -> where_holds app sg s.
+Proof. exact unification_is_where_when_not_null. Qed.
+
+(* non-vacuity: Q(y) :- T(x), y == x + 1  (x_0 = T.col0 extracted; select y with its extract variable x_1) *)
+Definition ex_rs : rs :=
+  {| sel := [(0, PVar 1)];
+     unifs := [(PVar 1, PVar 1001); (PVar 1000, PVar 0); (PVar 1, PBin OAdd (PVar 0) (PLit (VInt 1)))];
+     cons := [] |}.
+Example ex_eliminate :
+  eliminate (fun v => Nat.leb 1000 v) [1000] ex_rs =
+  Some (inr {| sel := [(0, PBin OAdd (PVar 1000) (PLit (VInt 1)))]; unifs := []; cons := [] |}).
+Proof. vm_compute. reflexivity. Qed.
+Example ex_eliminate_rejects :   (* Q(y) :- T(x): y cannot be determined *)
+  eliminate (fun v => Nat.leb 1000 v) [1000] {| sel := [(0, PVar 1)]; unifs := [(PVar 1, PVar 1001); (PVar 1000, PVar 0)]; cons := [] |}
+  = Some (inl [1001]).
+Proof. vm_compute. reflexivity. Qed.
